@@ -354,7 +354,7 @@ class Machine:
             self._return()
 
     def _return(self) -> None:
-        self._call_stack.unwind_loops()
+        self._vm_math.trim_stack(self._call_stack.unwind_loops())
         self._reg.pc = self._call_stack.get_return()
         self._call_stack.exit_routine()
 
@@ -377,10 +377,12 @@ class Machine:
                 self._reg.pc += 1
 
     def _loop(self) -> None:
-        self._call_stack.enter_loop()
+        self._call_stack.enter_loop(self._vm_math.stack_height())
 
     def _end_loop(self) -> None:
-        self._call_stack.exit_loop()
+        # A loop over lights keeps the names still to be visited on the
+        # evaluation stack; when it is left early they must not stay there.
+        self._vm_math.trim_stack(self._call_stack.exit_loop())
 
     @inject(LightSet)
     def _matrix(self, light_set) -> None:
